@@ -26,6 +26,7 @@ enum vp_ses { S_INIT,          /* SoftHSM::isInitialised */
               S_NULL_OUT,      /* an output pointer argument is NULL */
               S_OUT_LEN,       /* *pulLen on entry */
               S_TCOUNT,        /* ulCount of the template argument (<= VP_TMPL_MAX) */
+              S_NEW_RESOLVES,  /* handleManager->getObject(fresh handle) finds the object just created */
               VP_NSES };
 enum vp_sfx { F_SETOPTYPE_N, F_SETOPTYPE_LAST, F_TAIL_N, F_HM_DESTROY_N, F_HM_DESTROY_H, F_MECHPERM_N, F_MECHPERM_OBJ, F_MECHPERM_MECH,
               F_RESETOP_N, F_SESSION_SET_N, F_HR_N, F_HR_STATE, F_HR_TOKEN, F_HR_PRIVATE, F_HW_N, F_HW_STATE, F_HW_TOKEN, F_HW_PRIVATE,
